@@ -134,6 +134,8 @@ pub struct RvaCall<'a> {
     pub profile: &'a str,
     pub force_color: bool,
     pub cpu_seconds: u64,
+    /// file name (raw bytes) under which a copy of the base file is handed to the CLI instead
+    pub raw_base: Option<Vec<u8>>,
 }
 
 const OUT_CAP: usize = 32 << 20;
@@ -170,7 +172,19 @@ pub fn run_rva(c: &RvaCall) -> std::io::Result<T2Run> {
     for f in c.flags {
         cmd.arg(f);
     }
-    cmd.arg(format!("{root}/{}", c.base));
+    match &c.raw_base {
+        Some(name) => {
+            use std::os::unix::ffi::OsStringExt;
+            let mut full = format!("{root}/").into_bytes();
+            full.extend_from_slice(name);
+            let full = std::ffi::OsString::from_vec(full);
+            let _ = std::fs::copy(format!("{root}/{}", c.base), &full);
+            cmd.arg(full);
+        }
+        None => {
+            cmd.arg(format!("{root}/{}", c.base));
+        }
+    }
     cmd.env_clear()
         .env("LD_PRELOAD", &preload)
         .env("VERIF_ENTROPY_SEED", c.entropy.to_string())
